@@ -946,10 +946,20 @@ class Hydrodynamics:
                     events=shock,
                     rtol=self.rtol,
                     atol=0,
+                    dense_output=True,
                 )  # solve differential equation all the way from v = v+ to v = 0
-                vPlasma = solShock.t
-                xi = solShock.y[0]
-                T = solShock.y[1]
+                # The solver's own steps are too sparse for Simpson's rule: refine every
+                # step with the dense output (keeps the adaptive node distribution)
+                vPlasma = np.append(
+                    np.concatenate(
+                        [
+                            np.linspace(a, b, 20, endpoint=False)
+                            for a, b in zip(solShock.t[:-1], solShock.t[1:])
+                        ]
+                    ),
+                    solShock.t[-1],
+                )
+                xi, T = solShock.sol(vPlasma)
                 enthalpy = np.array([self.thermodynamics.wHighT(t) for t in T])
 
                 # Integrate the solution to get kappa
@@ -969,11 +979,21 @@ class Hydrodynamics:
                 xi0T0,
                 rtol=self.rtol,
                 atol=0,
-                args=(False,)
+                args=(False,),
+                dense_output=True,
             )  # solve differential equation all the way from v = v- to v = 0
-            vPlasma = solRarefaction.t
-            xi = solRarefaction.y[0]
-            T = solRarefaction.y[1]
+            # The solver's own steps are far too sparse for Simpson's rule (xi(v) has a
+            # vanishing derivative at the Jouguet point): refine every step.
+            vPlasma = np.append(
+                np.concatenate(
+                    [
+                        np.linspace(a, b, 20, endpoint=False)
+                        for a, b in zip(solRarefaction.t[:-1], solRarefaction.t[1:])
+                    ]
+                ),
+                solRarefaction.t[-1],
+            )
+            xi, T = solRarefaction.sol(vPlasma)
             enthalpy = np.array([self.thermodynamics.wLowT(t) for t in T])
 
             # Integrate the solution to get kappa
